@@ -97,25 +97,12 @@ def motion_notify_rule(ctx, cg=None):
     simu = repo.cls(SIMU)
     cg = cg or CallGraph(repo)
     # mesh motions and the coordinate setter notify
-    r4 = ctx.rule("R14.4", "mesh motions and coordinate assignment write every group and notify the observers; the observed objects are registered", min_instances=4)
+    # mesh motions and the coordinate setter: decided by interpretation on recorder groups (shared with C08)
+    from .c08 import mesh_motion_rule as _mesh_motion_rule
+
+    _mesh_motion_rule(ctx, "R14.4m")
+    r4 = ctx.rule("R14.4", "the simulation registers itself as observer of its mesh and of its model", min_instances=1)
     mesh = repo.cls(MESH)
-    for nm in ("Translate", "Rotate", "Symmetry"):
-        f = mesh.methods[nm]
-        r4.instance(fn=f.qualname)
-        loops = [n for n in ast.walk(f.node) if isinstance(n, ast.For) and "dict_groupElem" in norm_text(n.iter)]
-        notif = calls_any(cg, f, ("_Notify",))
-        if loops and notif:
-            r4.ok(f"Mesh.{nm}: loops over every group and notifies")
-        else:
-            r4.fail(f.qualname, "motion", f.file, f.lineno, f"Mesh.{nm}", f"{'does not write every element group' if not loops else 'does not notify the observers'}: simulations keep matrices of the old geometry")
-    fcs = mesh.setters.get("coord")
-    if fcs is not None:
-        r4.instance(fn=fcs.qualname)
-        loops = [n for n in ast.walk(fcs.node) if isinstance(n, ast.For) and "dict_groupElem" in norm_text(n.iter)]
-        if loops and calls_any(cg, fcs, ("_Notify",)):
-            r4.ok("Mesh.coord setter: loops over every group and notifies")
-        else:
-            r4.fail(fcs.qualname + ".setter", "coord-setter", fcs.file, fcs.lineno, "Mesh.coord.setter", "assigning mesh.coord does not notify the observers: simulations keep K, C, M of the old coordinates (needUpdate stays False)")
     # observer registration in the simulation constructor / mesh setter
     finit = simu.methods["__init__"]
     r4.instance(fn=finit.qualname)
